@@ -681,6 +681,17 @@ func (w *World) VerifyFunc(fn *ssa.Function) *VC {
 		}
 	}
 	pre := &SpecEnv{W: w, Vars: vars, Heap: heap, Old: heap, Scope: fc.ScopePkg, Side: vc}
+	// termination of direct recursion: the measure at entry (checked at every call of
+	// the function to itself, see applyContractFn)
+	if fc.Decreases != nil {
+		pre.Scope = fc.ScopePkg
+		if v, err := pre.Eval(fc.Decreases.E); err != nil || pre.value(v).T.Sort != SInt {
+			f.fail("decreases: %v", err)
+		} else {
+			vc.entryMeasure = vc.Define("measure", pre.value(v).T)
+			vc.entryFn = fn
+		}
+	}
 	var preTerms []Term
 	for _, r := range ec.requires {
 		pre.Scope = r.scope
